@@ -21,7 +21,7 @@ PROP = dict(
         "saturating_site_exact_iff", "saturating_sites_refuted", "f2dot14_within_quantum", "f2dot14_refuted",
         "narrow_arith_profiles_agree_iff", "checked_site_never_wraps", "width_class_checked",
         "variation_instance_exact_iff",
-        "glyf_outline_never_wrapped", "glyf_outline_emitted_iff", "glyf_profiles_agree",
+        "glyf_outline_never_wrapped", "glyf_seam_step_checked", "glyf_outline_emitted_iff", "glyf_profiles_agree",
         "component_fallback_preserves_shape", "flattened_scale_refuted",
         "composite_totals_exact_or_rejected", "composite_totals_u32_refuted",
         "font_profiles_agree", "font_profiles_agree_bounded",
@@ -32,7 +32,7 @@ PROP = dict(
     harness_args=lambda tier, seed: ["--seed", str(seed), "--n", str(N[tier]), "--tier", tier],
     shard=40,
     rule="boundary sources: for every narrowed field (advance width/height, outline coordinate and successive "
-         "difference, component offset, component 2x2 entry plain and after --flatten-components, composite box, "
+         "difference inside a contour and across a contour seam (two and three contours, both signs, x and y; glyf outlines are decoded by hand with unbounded running sums, not through read-fonts), component offset, component 2x2 entry plain and after --flatten-components, composite box, "
          "kerning value, anchor coordinate, hhea line metrics, vertical origin, top side bearing, HVAR/gvar deltas, "
          "points per glyph, composite point totals, glyph count (thorough), WidthClass) the values limit-1, limit, "
          "limit+fractions, limit+1, far beyond, on both signs, plus seeded draws (half within +-3 of a limit in "
